@@ -49,7 +49,7 @@ def one_trace(seed, steps):
         if keys:
             choices += ["delvar", "rename_keys", "rename_var", "set_axis_var", "relabel_one_var", "rename_var_set_axis"]
             if all(ds.axes[n].size > 0 for n in names) and all(any(n in dict.__getitem__(ds, q).dims for q in keys) for n in names):
-                choices += ["continue"]
+                choices += ["continue"] + (["dim_variable"] if names else [])
         if names:
             choices += ["rename_ds", "rename_axes", "set_axis", "relabel_one", "replace_axis", "set_dims"]
         if free_names and len(names) < 5:
@@ -88,6 +88,8 @@ def one_trace(seed, steps):
                 if not free_names:
                     continue
                 args = dict(k=k, j=j + 1, n=rng.choice(free_names))
+        elif act == "dim_variable":
+            args = dict(d=rng.choice(names), n="q", k=keys[0], labs=[])
         elif act == "continue":
             kind = rng.choice(["copy", "rename_axes_copy", "set_axis_copy", "rename_keys_copy"])
             act = "continue_" + kind
